@@ -17,7 +17,9 @@ import (
 	"os"
 	"path/filepath"
 	"strings"
+	"runtime"
 	"sync"
+	"sync/atomic"
 	"time"
 
 	"github.com/opencontainers/image-spec/specs-go"
@@ -520,14 +522,26 @@ func runC06c(seed int64, tier string, sc *Script) map[string]any {
 		for k := 0; k < 6; k++ {
 			o.Tag(ctx, md, fmt.Sprintf("pre%d", k))
 		}
+		// three rounds in four keep the index in memory: a Tag is then a few hundred
+		// nanoseconds, the taggers spin, and the Delete lands among thousands of Tags
+		spin := ri%4 != 0
+		o.AutoSaveIndex = !spin
 		taggers := 4 + rrng.Intn(6)
+		wait := rrng.Intn(3000)
 		start := make(chan struct{})
+		var stop int32
 		var wg sync.WaitGroup
 		for k := 0; k < taggers; k++ {
 			wg.Add(1)
 			go func(k int) {
 				defer wg.Done()
 				<-start
+				if spin {
+					for r := 0; atomic.LoadInt32(&stop) == 0 && r < 200000; r++ {
+						o.Tag(ctx, md, fmt.Sprintf("t%d-%d", k, r%4))
+					}
+					return
+				}
 				for r := 0; r < 3; r++ {
 					o.Tag(ctx, md, fmt.Sprintf("t%d-%d", k, r))
 				}
@@ -537,7 +551,13 @@ func runC06c(seed int64, tier string, sc *Script) map[string]any {
 		go func() {
 			defer wg.Done()
 			<-start
+			if spin {
+				for w := wait; w > 0; w-- {
+					runtime.Gosched()
+				}
+			}
 			o.Delete(ctx, md)
+			atomic.StoreInt32(&stop, 1)
 		}()
 		close(start)
 		wg.Wait()
